@@ -27,9 +27,24 @@ const (
 	KEntMissing  = "ent_missing"   // _entities without its last element
 	KEntExtra    = "ent_extra"     // _entities with one more element
 	KEntNull     = "ent_null"      // the first element of _entities is null
+	// the selected data path holds an explicit null / a wrong kind / nothing (unmerged entity requests only):
+	KEntListNull    = "entlist_null"     // {"data":{"_entities":null}}
+	KEntListNull500 = "entlist_null_500" // the same with status 500
+	KEntListNullErr = "entlist_null_err" // {"data":{"_entities":null},"errors":[..]}
+	KEntListObj     = "entlist_obj"      // {"data":{"_entities":{}}}
+	KDataEmpty      = "data_empty"       // {"data":{}}
 )
 
-var AllKinds = []string{KTransport, K500Body, K500Empty, K200Empty, KNonJSON, KNaN, KInf, KBadNum, KTruncated, KErrsNoData, KEntMissing, KEntExtra, KEntNull}
+var AllKinds = []string{KTransport, K500Body, K500Empty, K200Empty, KNonJSON, KNaN, KInf, KBadNum, KTruncated, KErrsNoData, KEntMissing, KEntExtra, KEntNull,
+	KEntListNull, KEntListNull500, KEntListNullErr, KEntListObj, KDataEmpty}
+
+func wholeList(kind string) bool {
+	switch kind {
+	case KEntListNull, KEntListNull500, KEntListNullErr, KEntListObj, KDataEmpty:
+		return true
+	}
+	return false
+}
 
 // Hard kinds are the failures the property lists (the request as a whole failed); ent_null is a
 // legitimate federation answer for one entity and only affects that entity.
@@ -81,6 +96,19 @@ func firstNumber(j *fedlab.J) *fedlab.J {
 // Applicable tells whether the kind can be built for this request (entity kinds need a non-empty
 // _entities list, NaN needs a number in the data).
 func Applicable(kind string, req *fedlab.Request) bool {
+	if wholeList(kind) {
+		// an unmerged entity request: data is exactly {"_entities":[..non-empty..]}
+		if !req.IsEntityFetch {
+			return false
+		}
+		body, err := fedlab.ParseJSON(req.Response)
+		if err != nil {
+			return false
+		}
+		data := body.Get("data")
+		return data != nil && data.Kind == fedlab.JObj && len(data.Members) == 1 && data.Members[0].Key == "_entities" &&
+			data.Members[0].Val != nil && data.Members[0].Val.Kind == fedlab.JArr && len(data.Members[0].Val.Items) > 0
+	}
 	switch kind {
 	case KEntMissing, KEntExtra, KEntNull:
 		if !req.IsEntityFetch {
@@ -122,6 +150,16 @@ func ActionFor(kind string, req *fedlab.Request) (fedlab.Action, error) {
 		return fedlab.Action{Status: 200, Body: append([]byte(nil), b[:len(b)/2]...)}, nil
 	case KErrsNoData:
 		return fedlab.Action{Status: 200, Body: []byte(`{"errors":[{"message":"injected: boom"}]}`)}, nil
+	case KEntListNull:
+		return fedlab.Action{Status: 200, Body: []byte(`{"data":{"_entities":null}}`)}, nil
+	case KEntListNull500:
+		return fedlab.Action{Status: 500, Body: []byte(`{"data":{"_entities":null}}`)}, nil
+	case KEntListNullErr:
+		return fedlab.Action{Status: 200, Body: []byte(`{"data":{"_entities":null},"errors":[{"message":"injected: boom"}]}`)}, nil
+	case KEntListObj:
+		return fedlab.Action{Status: 200, Body: []byte(`{"data":{"_entities":{}}}`)}, nil
+	case KDataEmpty:
+		return fedlab.Action{Status: 200, Body: []byte(`{"data":{}}`)}, nil
 	}
 	body, err := fedlab.ParseJSON(req.Response)
 	if err != nil {
